@@ -162,11 +162,17 @@ def get_av_by_regions(ctx, g, mk, inst, qunit, single=False):
             Rg = knots.Region(None, xw, T, n, qlabel=Q, requests=[(q, kq, jq), (v, kv, jv)])
             try:
                 got = Rg.simplify(out.poly)
+                oob = list(Rg.oob)
+                if oob and Rg.pending:
+                    return False
                 qq = Rg.pts[jq] if kq == 'at' else q
                 ref = Rg.simplify(Poly.const(Fraction(-2, 5)) * L(kq, jq, qq) * L(kv, jv, v).pow(-1))
             except (RecursionError, ZeroDivisionError):
                 return False
             ncomb += 1
+            if oob:
+                bad.append('request %s, 0.55 micron %s: reads position %d of a table of %d wavelengths (IndexError)' % (nq, nv, oob[0], n))
+                continue
             if knots.equal(got, ref):
                 continue
             if not knots.closed_form(got):
